@@ -101,6 +101,10 @@ CONTRACTS = [
 ]
 REGISTRY = [policy_for_callers]
 
+from contracts import c10_options  # noqa: E402
+
+# the context-wide policy reaches the hasher through _CryptConfig._init_options (a later item for a slot replaces the earlier one)
+CONTRACTS += [c for c in c10_options.CONTRACTS if c.id.endswith(("[0]", "[1]", "[2]"))]
 BOUNDED = [Bounded("c05", "harness/c05.py", descr="boundary-length multi-byte passwords on all truncating hashers; 4095/4096/4097; NUL positions", timeout=900)]
 
 MUTANTS = [
